@@ -130,6 +130,23 @@ def stream_attack(kind):
             a, b = sim.net.stream_pair(ms.ATTACKER, ms.SERVER)
             listener(b)
             await anyio.sleep(quant(0.02))
+            if kind.startswith("closes-mid-frame"):
+                # several third parties in a row, each sending the start of a frame (or a frame announcing more than follows) and
+                # closing: whatever they leave behind must not meet the well-behaved peers that connect afterwards
+                leftovers = [b"\x80\x00\x10\x00\xaa", b"\x80", b"\x80\x04\x00\x00\xaa\x01\x01\x00\x10\x00\x00\x00\x01",
+                             b"\x80\x00\xff\x00\xaa\x01\x01\x00\x20\x00\x01\x00" + bytes(40), rng.randbytes(7)]
+                rng.shuffle(leftovers)
+                for j, lo in enumerate(leftovers):
+                    if j:
+                        out.probe_addrs.add((ms.ATTACKER[0], ms.ATTACKER[1] + j))
+                        a, b = sim.net.stream_pair((ms.ATTACKER[0], ms.ATTACKER[1] + j), ms.SERVER)
+                        listener(b)
+                        await anyio.sleep(quant(0.01))
+                    await a.send(lo); out.injected += 1
+                    await anyio.sleep(quant(0.02))
+                    await a.close()
+                    await anyio.sleep(quant(0.02))
+                return
             if kind == "partial-header":
                 await a.send(b"\x80\x00\x10\x00\xaa"); out.injected += 1          # 5 bytes of a header, then silence
             elif kind == "bad-magic":
@@ -315,6 +332,10 @@ def run(ctx):
     for kind in ("partial-header", "bad-magic", "garbage-stream", "huge-announce", "never-reads"):
         for r in range(1 if quick else 4):
             jobs.append((n, st_spec, ctx.rng.getrandbits(32), ("stream", kind))); n += 1
+    late_spec = dict(transport="lite", server_version=1, vports=[1], rounds=4,
+                     clients=[dict(version=1, vport=1), dict(version=1, vport=1, start=0.5), dict(version=1, vport=1, start=0.75), dict(version=1, vport=1, start=1.0)])
+    for r in range(2 if quick else 8):
+        jobs.append((n, late_spec, ctx.rng.getrandbits(32), ("stream", "closes-mid-frame"))); n += 1
     # a hostile peer needs no malformed traffic: a valid connection whose handler is busy, flooded with messages nobody reads
     for sp in (dg_specs[:2] + [st_spec]) if quick else (dg_specs + [st_spec]):
         for r in range(1 if quick else 3):
